@@ -148,6 +148,9 @@ def canonical (cs : List Content) (ops : List Json) (rc : List Nat) (fs0 : Fs) (
     else if k == "trunc" then (fs.set name emptyCid, watcher s [.evAdd name .badJson])
     else if k == "rmdir" then
       ({ present := false, files := [] }, watcher s (fs.files.map (fun f => Step.evRemove f.1) ++ [.evSelf]))
+    else if k == "mvdir" then
+      -- renamed away with its files: the watcher learns it through IN_MOVE_SELF alone
+      ({ present := false, files := [] }, watcher s [.evSelf])
     else if k == "mkdir" then ({ fs with present := true }, s)
     else if k == "rmsub" then (fs, watcher s [.evRemove name])
     else acc) (fs0, s0)
@@ -202,7 +205,7 @@ def handle (j : Json) : Json :=
   let ops := (jarr s "ops").map fun o => if jstr o "op" == "bg" then jobj o "do" else o
   let rc := (jarr t "rc").map asNat
   let initDir := parseDir (jobj s "init")
-  let recreate := ops.any (fun o => jstr o "op" == "rmdir") || initDir.isNone
+  let recreate := ops.any (fun o => jstr o "op" == "rmdir" || jstr o "op" == "mvdir") || initDir.isNone
   let hooks := jbool t "hooks"
   -- ---------------- holds: oracle from the final directory listing
   let finalDir := (parseDir (jobj t "final_dir")).getD []
